@@ -41,6 +41,7 @@ type WorkerResult struct {
 	WallMs     int64            `json:"wall_ms"`
 	Gomaxprocs int              `json:"gomaxprocs"`
 	HashFile   string           `json:"hash_file"`
+	States     []uint64         `json:"states,omitempty"` // distinct abstract quiescent states (pipe.go: noteState)
 }
 
 func envInt(k string, def int) int {
@@ -200,6 +201,11 @@ func WorkerMain(t *testing.T) {
 		for i, h := range hs {
 			binary.LittleEndian.PutUint64(hb[8*i:], h)
 		}
+		res.States = res.States[:0]
+		for h := range StateSigs {
+			res.States = append(res.States, h)
+		}
+		sort.Slice(res.States, func(i, j int) bool { return res.States[i] < res.States[j] })
 		res.HashFile = outPath + ".hashes"
 		os.WriteFile(res.HashFile, hb, 0o644)
 		b, _ := json.Marshal(res)
